@@ -118,6 +118,21 @@ def _check(v, with_ignored):
             bad.append({"what": "genomic array does not expand to the dense array its records describe", "tags": dict(tags, step="expand-" + nm),
                         "vector": v, "expected": want, "observed": o})
             return {"n": n, "nt": nt, "bad": bad}
+    if tree[0] == "A" and bg:
+        # a genomic array is a value: writing into the arrays it was built from afterwards does not change it
+        def scribbled():
+            st2, en2, v2 = st.copy(), en.copy(), vals.copy()
+            A2 = g.get_track(BedGraph(list(chrom), st2, en2, v2))
+            B2 = g.get_intervals(Interval(list(chrom), st2, en2)).get_pileup()
+            v2[:] = 77
+            st2[:] = 0
+            en2[:] = 1
+            return dense(A2), dense(B2)
+        o = outcome(scribbled)
+        n += 1
+        if o != ("ok", (v["A"], v["B"])):
+            bad.append({"what": "a genomic array changed when the arrays it was built from were written to afterwards", "tags": dict(tags, step="inputs-written-afterwards"),
+                        "vector": v, "expected": [v["A"], v["B"]], "observed": str(o)[:400]})
     o = outcome(lambda: _apply(tree, A, B))
     n += 1
     if o[0] == "err":
